@@ -332,7 +332,11 @@ func zooMerges(c *explore.Ctx, check func(scope string, idx int64, r *mergeRun))
 func large1HitMerges(c *explore.Ctx, check func(scope string, idx int64, r *mergeRun)) {
 	scope := "LARGE-1HIT"
 	var idx int64
-	for _, n := range []int{1023, 1024, 1025, 2047, 2048} {
+	for _, nt := range []struct {
+		n int
+		t string
+	}{{1023, "x"}, {1024, "x"}, {1025, "x"}, {2047, "x"}, {2048, "x"}, {1023, ""}, {1024, ""}, {2048, ""}, {2100, ""}} {
+		n, tname := nt.n, nt.t // the empty term is the first term of its field
 		for dropOne := 0; dropOne < 2; dropOne++ {
 			for order := 0; order < 2; order++ {
 				my := idx
@@ -342,14 +346,14 @@ func large1HitMerges(c *explore.Ctx, check func(scope string, idx int64, r *merg
 				}
 				c.Eval()
 				c.Nontrivial()
-				big := gen.Large(n, 0, 1)
+				big := renameTerm(gen.Large(n, 0, 1), "a", "x", tname)
 				for j := range big {
 					if j%97 == 0 || j == n-1 {
 						big[j] = append(gen.Doc{gen.IDField("s0", j)}, big[j]...)
 					}
 				}
-				one := []model.Doc{{gen.IDField("s1", 0), {N: "a", Len: 1, Terms: []model.Term{{T: "x", Freq: 1}}}}}
-				r := &mergeRun{cfg: mergeCfg{Name: fmt.Sprintf("large-1hit n=%d drop-1hit=%v order=%d", n, dropOne == 1, order), InModes: []uint32{1025}, Out: 1025}, alias: true}
+				one := []model.Doc{{gen.IDField("s1", 0), {N: "a", Len: 1, Terms: []model.Term{{T: tname, Freq: 1}}}}}
+				r := &mergeRun{cfg: mergeCfg{Name: fmt.Sprintf("large-1hit n=%d term=%q drop-1hit=%v order=%d", n, tname, dropOne == 1, order), InModes: []uint32{1025}, Out: 1025}, alias: true}
 				bad := false
 				add := func(b []model.Doc, form int, drops []uint32) {
 					sg, err := build(b, 1025)
